@@ -3,13 +3,13 @@ TUS = ['src/base/QXmppIbbIq.cpp', 'src/base/QXmppIq.cpp', 'src/base/QXmppStanza.
        'src/base/QXmppByteStreamIq.cpp', 'src/client/QXmppClientExtension.cpp']
 MODELS = ['qt_core.c', 'qt_list.c', 'qt_dom.c', 'c19_models.c']
 def I(name, bound, **kw):
-    d = dict(name=name, entry='h_' + name, unwind=6, timeout_s=240, mem_gb=6, bound=bound); d.update(kw); return d
+    d = dict(name=name, entry='h_' + name, unwind=6, timeout_s=300, mem_gb=3, bound=bound); d.update(kw); return d
 SPEC = dict(
     property='C19',
     groups=[
         dict(name='ibb', harness='h.cpp', tus=TUS, models=MODELS,
              instances=[
-                 I('data_step', 'one job'), I('data_step_kf', '', known_finding='ibb_sequence_wrap'), I('close_step', ''), I('terminated', ''), I('open_step', ''), I('sender_result2', '', entry='h_sender_step', cdefs={'VP_CASE': 3 | (2 << 2)}), I('sender_result0', '', entry='h_sender_step', cdefs={'VP_CASE': 3 | (0 << 2)}), I('sender_error', '', entry='h_sender_step', cdefs={'VP_CASE': 0 | (1 << 2)}), I('sender_dispatch', '', cdefs={'VP_CASE': 3 | (1 << 2)}), I('lookup', ''),
+                 I('data_step', 'one job'), I('data_step_kf', ''), I('close_step', ''), I('terminated', ''), I('open_step', ''), I('sender_result2', '', entry='h_sender_step', cdefs={'VP_CASE': 3 | (2 << 2)}), I('sender_result0', '', entry='h_sender_step', cdefs={'VP_CASE': 3 | (0 << 2)}), I('sender_error', '', entry='h_sender_step', cdefs={'VP_CASE': 0 | (1 << 2)}), I('sender_dispatch', '', cdefs={'VP_CASE': 3 | (1 << 2)}), I('lookup', ''), I('transfer2', '', object_bits=12, unwind=6), I('send2', '', object_bits=12, unwind=6),
              ]),
     ],
     bounds=[], assumptions=[], outside=[],
